@@ -312,6 +312,9 @@ func rulesC11(e *Engine, r *Report) {
 		}
 		r.Min("R11.8", "whole-file ranges built for re-sending", n, 2)
 	}
+	// ---------------------------------------------------------------- R11.9
+	r.Rule("R11.9", "the ranges a resumed file is cut into lie inside the file: they are derived from a partial of the same hash, hence of the same size (same check as R07.11; a partial of an older, longer version gave a 300-byte file the range 100-500)")
+	checkResumeSameVersion(e, r, "R11.9")
 }
 
 // checkRecoverAllocate: the allocator of a resumed file hands out exactly its
